@@ -1,8 +1,10 @@
 package main
 
 import (
+	"bufio"
 	"bytes"
 	"fmt"
+	"io"
 	"sort"
 	"strings"
 	"sync"
@@ -99,6 +101,9 @@ func waitEvents(h *recorder, n int, d time.Duration) bool {
 }
 
 func execOwn(args []string) string {
+	if len(args) >= 2 && args[0] == "trace" {
+		return ownTrace(args[1])
+	}
 	mon := &poolMon{inPool: map[*bytes.Buffer]bool{}}
 	gws.VerifSetPoolHook(mon.hook)
 	defer gws.VerifSetPoolHook(nil)
@@ -392,6 +397,11 @@ func execOwn(args []string) string {
 }
 
 func genOwn(g *Gen) {
+	for _, sc := range ownTraceScenarios {
+		for i := 0; i < g.pick(1, 4); i++ { // the trace of a path does not depend on the run: repeat to show it
+			g.Emit("own trace %s", sc)
+		}
+	}
 	for _, role := range []string{"s", "c"} {
 		for _, pd := range []string{"0", "1"} {
 			g.Emit("own write-apis %s %s", role, pd)
@@ -405,4 +415,357 @@ func genOwn(g *Gen) {
 			g.Emit("own broadcaster %s %s", early, pd)
 		}
 	}
+}
+
+// ---- trace tie: the pool events of one library path, alone on an idle connection ----------------
+//
+// `own trace <scenario>` runs exactly one path of the library on a fresh, otherwise idle gws endpoint
+// whose peer is played by the harness at byte level (so that no second gws endpoint produces events),
+// and records through the pool hook every Get/Put of binaryPool and every Put of the generic pools
+// between two harness marks (handshake and teardown excluded).  Buffers are named by incarnation: the
+// n-th Get in the window is b<n>; a Put names the incarnation it ends (physical reuse of a
+// *bytes.Buffer by sync.Pool is therefore invisible, as it should be).  The Lean driver prints the
+// get/put projection of the model's path (Gws/Model/Conc/Own.lean) for the same scenario.
+
+var ownTraceScenarios = []string{
+	"single-plain", "single-compressed", "fragments-3", "fragments-compressed", "ping",
+	"write-server", "write-client", "write-compressed", "writefile-plain-3", "writefile-compressed", "broadcast-2",
+	// further scenarios
+	"single-plain-hold", "single-compressed-hold", "single-plain-client", "single-compressed-client",
+	"fragments-pooled", "write-ping", "write-compressed-client", "writefile-plain-1", "writefile-compressed-client",
+	"writefile-compressed-big", "write-close", "upgrade",
+	"broadcast-2-early", "broadcast-2-mixed", "teardown-idle", "teardown-busy",
+}
+
+type poolTracer struct {
+	mu   sync.Mutex
+	on   bool
+	side string
+	next int
+	live map[*bytes.Buffer]int
+	evs  []string
+}
+
+func (t *poolTracer) hook(kind string, obj any) {
+	t.mu.Lock()
+	defer t.mu.Unlock()
+	if !t.on {
+		return
+	}
+	switch v := obj.(type) {
+	case *bytes.Buffer:
+		if kind == "get" {
+			t.live[v] = t.next
+			t.evs = append(t.evs, fmt.Sprintf("%s:get:b%d", t.side, t.next))
+			t.next++
+			return
+		}
+		id, ok := t.live[v]
+		if !ok { // a Put that ends no incarnation of this window: a buffer the pool never handed out (or a second Put)
+			id = t.next
+			t.next++
+		}
+		delete(t.live, v)
+		t.evs = append(t.evs, fmt.Sprintf("%s:put:b%d", t.side, id))
+	case []byte:
+		t.evs = append(t.evs, fmt.Sprintf("%s:put:win%d", t.side, cap(v)))
+	case *bufio.Reader:
+		t.evs = append(t.evs, t.side+":put:reader")
+	default:
+		t.evs = append(t.evs, t.side+":put:deflater")
+	}
+}
+
+func (t *poolTracer) begin() { t.mu.Lock(); t.on = true; t.mu.Unlock() }
+func (t *poolTracer) end() string {
+	t.mu.Lock()
+	defer t.mu.Unlock()
+	t.on = false
+	if len(t.evs) == 0 {
+		return "-"
+	}
+	return strings.Join(t.evs, ",")
+}
+
+// chunkReader returns its chunks one Read at a time, the last one together with io.EOF.
+type chunkReader struct{ chunks [][]byte }
+
+func (r *chunkReader) Read(p []byte) (int, error) {
+	if len(r.chunks) == 0 {
+		return 0, io.EOF
+	}
+	n := copy(p, r.chunks[0])
+	r.chunks = r.chunks[1:]
+	if len(r.chunks) == 0 {
+		return n, io.EOF
+	}
+	return n, nil
+}
+
+func ownTrace(scenario string) string {
+	tr := &poolTracer{live: map[*bytes.Buffer]int{}, side: "s"}
+	gws.VerifSetPoolHook(tr.hook)
+	defer gws.VerifSetPoolHook(nil)
+	r := NewRand(hashString(scenario))
+	has := func(s string) bool { return strings.Contains(scenario, s) }
+	pdOpt := gws.PermessageDeflate{Enabled: true, ServerContextTakeover: true, ClientContextTakeover: true, PoolSize: 1, Threshold: 1,
+		ServerMaxWindowBits: 10, ClientMaxWindowBits: 12}
+	const ext = "permessage-deflate; server_max_window_bits=10; client_max_window_bits=12"
+	text := func(n int) []byte { // compressible
+		return bytes.Repeat([]byte("the quick brown fox "), n/20+1)[:n]
+	}
+
+	// the endpoint under observation: a server (raw client peer) or a client (raw server peer)
+	type endpoint struct {
+		c     *gws.Conn
+		local *memConn
+		peer  *memConn
+		h     *recorder
+		end   chan struct{} // closed when the sentinel ping has been handled
+		loop  chan struct{} // closed when ReadLoop has returned
+	}
+	open := func(client, pd bool) (*endpoint, error) {
+		e := &endpoint{h: newRecorder(), end: make(chan struct{}), loop: make(chan struct{})}
+		e.h.noAutoClose = has("hold")
+		e.h.onPing = func(c *gws.Conn, p []byte) {
+			if string(p) == "END" {
+				close(e.end)
+			}
+		}
+		x := ""
+		var err error
+		if client {
+			copt := &gws.ClientOption{}
+			if pd {
+				copt.PermessageDeflate, x = pdOpt, ext
+			}
+			e.c, e.local, e.peer, err = clientConnRaw(copt, e.h, x, nil)
+		} else {
+			sopt := &gws.ServerOption{}
+			if pd {
+				sopt.PermessageDeflate, x = pdOpt, ext
+			}
+			e.c, e.local, e.peer, err = serverConnRaw(sopt, e.h, x)
+		}
+		if err != nil {
+			return nil, err
+		}
+		opened := make(chan struct{})
+		e.h.onOpen = func(*gws.Conn) { close(opened) }
+		go func() { e.c.ReadLoop(); close(e.loop) }()
+		<-opened
+		return e, nil
+	}
+	// deliver raw frames to the endpoint's reader, followed by the sentinel; returns when the sentinel
+	// has been handled, i.e. when the readMessage calls for the frames have returned
+	feed := func(e *endpoint, client bool, frames ...frameSpec) bool {
+		var b []byte
+		for _, f := range append(frames, frameSpec{fin: true, opcode: 9, payload: []byte("END")}) {
+			f.masked = !client
+			if f.masked {
+				copy(f.key[:], r.Bytes(4))
+			}
+			b = append(b, f.bytes()...)
+		}
+		_, _ = e.peer.Write(b)
+		select {
+		case <-e.end:
+			return true
+		case <-time.After(3 * time.Second):
+			return false
+		}
+	}
+	finish := func(e *endpoint) {
+		_ = e.c.WriteClose(1000, nil)
+		select {
+		case <-e.loop:
+		case <-time.After(time.Second):
+		}
+	}
+
+	client := has("client")
+	if client {
+		tr.side = "c"
+	}
+	pd := has("compressed") || has("mixed") || has("teardown") || has("write-close")
+	var out string
+	switch {
+	case strings.HasPrefix(scenario, "single-"), strings.HasPrefix(scenario, "fragments-"), scenario == "ping":
+		e, err := open(client, pd)
+		if err != nil {
+			return "handshake-failed"
+		}
+		var frames []frameSpec
+		switch {
+		case strings.HasPrefix(scenario, "single-plain"):
+			frames = []frameSpec{{fin: true, opcode: 2, payload: r.Bytes(20)}}
+		case strings.HasPrefix(scenario, "single-compressed"):
+			frames = []frameSpec{{fin: true, rsv1: true, opcode: 1, payload: deflateRaw(text(300), nil, 1)}}
+		case scenario == "fragments-3":
+			frames = []frameSpec{{opcode: 2, payload: r.Bytes(10)}, {opcode: 0, payload: r.Bytes(10)}, {fin: true, opcode: 0, payload: r.Bytes(10)}}
+		case scenario == "fragments-pooled":
+			// the reassembly buffer is make([]byte, 0, 128) grown to 256 by bytes.Buffer: a pool-sized capacity,
+			// so the application's Message.Close donates a buffer that the pool never handed out
+			frames = []frameSpec{{opcode: 2, payload: r.Bytes(128)}, {fin: true, opcode: 0, payload: r.Bytes(100)}}
+		case scenario == "fragments-compressed":
+			z := deflateRaw(text(300), nil, 1)
+			a, b := len(z)/3, 2*len(z)/3
+			frames = []frameSpec{{rsv1: true, opcode: 1, payload: z[:a]}, {opcode: 0, payload: z[a:b]}, {fin: true, opcode: 0, payload: z[b:]}}
+		case scenario == "ping":
+			frames = []frameSpec{{fin: true, opcode: 9, payload: r.Bytes(5)}}
+		}
+		var held []*gws.Message
+		var hmu sync.Mutex
+		e.h.onMsg = func(c *gws.Conn, m *gws.Message) {
+			hmu.Lock()
+			held = append(held, m)
+			hmu.Unlock()
+		}
+		tr.begin()
+		ok := feed(e, client, frames...)
+		if has("hold") { // the application closes the message long after the handler (and readMessage) returned
+			hmu.Lock()
+			for _, m := range held {
+				_ = m.Close()
+			}
+			hmu.Unlock()
+		}
+		out = tr.end()
+		if !ok {
+			out = "sentinel-timeout:" + out
+		}
+		finish(e)
+	case scenario == "upgrade": // the server handshake itself: the 101 response is built in a pooled buffer
+		tr.begin()
+		e, err := open(false, true)
+		out = tr.end()
+		if err != nil {
+			return "handshake-failed"
+		}
+		finish(e)
+	case strings.HasPrefix(scenario, "write-"):
+		e, err := open(client, pd)
+		if err != nil {
+			return "handshake-failed"
+		}
+		tr.begin()
+		switch {
+		case scenario == "write-close": // an active close, up to the end of the read loop (TryLock succeeds: no writer in flight)
+			err = e.c.WriteClose(1001, []byte("bye"))
+			select {
+			case <-e.loop:
+			case <-time.After(3 * time.Second):
+				err = fmt.Errorf("loop did not end")
+			}
+		case scenario == "write-ping":
+			err = e.c.WritePing(r.Bytes(10))
+		case pd:
+			err = e.c.WriteMessage(gws.OpcodeText, text(300))
+		default:
+			err = e.c.WriteMessage(gws.OpcodeBinary, r.Bytes(20))
+		}
+		out = tr.end()
+		if err != nil {
+			out = "write-error:" + out
+		}
+		finish(e)
+	case strings.HasPrefix(scenario, "writefile-"):
+		e, err := open(client, pd)
+		if err != nil {
+			return "handshake-failed"
+		}
+		rd := &chunkReader{chunks: [][]byte{text(100), text(100), text(50)}}
+		if has("plain-1") {
+			rd.chunks = rd.chunks[:1]
+		}
+		if has("big") { // incompressible: about 300 KB of output, i.e. three 128 KiB output buffers, two of them streamed
+			rd.chunks = [][]byte{r.Bytes(100000), r.Bytes(100000), r.Bytes(100000)}
+		}
+		tr.begin()
+		err = e.c.WriteFile(gws.OpcodeText, rd)
+		out = tr.end()
+		if err != nil {
+			out = "write-error:" + out
+		}
+		finish(e)
+	case strings.HasPrefix(scenario, "broadcast-2"):
+		e1, err := open(false, false)
+		if err != nil {
+			return "handshake-failed"
+		}
+		e2, err := open(false, has("mixed"))
+		if err != nil {
+			return "handshake-failed"
+		}
+		tr.begin()
+		b := gws.NewBroadcaster(gws.OpcodeText, text(300))
+		if has("early") { // Close while both sends are still pending: the last send releases the frames
+			gate := make(chan struct{})
+			e1.c.Async(func() { <-gate })
+			e2.c.Async(func() { <-gate })
+			_ = b.Broadcast(e1.c)
+			_ = b.Broadcast(e2.c)
+			_ = b.Close()
+			close(gate)
+			drainAsync(e1.c)
+			drainAsync(e2.c)
+		} else {
+			_ = b.Broadcast(e1.c)
+			_ = b.Broadcast(e2.c)
+			drainAsync(e1.c)
+			drainAsync(e2.c)
+			_ = b.Close()
+		}
+		out = tr.end()
+		finish(e1)
+		finish(e2)
+	case strings.HasPrefix(scenario, "teardown-"):
+		// only the generic pools are of interest here (reader, compression window, decompression window);
+		// the binaryPool events of the concurrent writers are filtered out (their order is not determined)
+		e, err := open(false, true)
+		if err != nil {
+			return "handshake-failed"
+		}
+		tr.begin()
+		if scenario == "teardown-busy" {
+			e.local.Stall()
+			wdone := make(chan struct{})
+			go func() { _ = e.c.WriteMessage(gws.OpcodeText, text(300)); close(wdone) }() // holds c.mu, parked in the transport
+			e.local.WaitStalled(1, 2*time.Second)
+			cdone := make(chan struct{})
+			go func() { _ = e.c.WriteClose(1000, nil); close(cdone) }() // wins the CAS, waits for c.mu
+			time.Sleep(20 * time.Millisecond)
+			_, _ = e.peer.Write([]byte{0x89, 0x00}) // unmasked: the reader fails, loses the CAS, runs OnClose, reclaims
+			select {
+			case <-e.loop:
+			case <-time.After(3 * time.Second):
+				out = "loop-timeout:"
+			}
+			e.local.Unstall()
+			<-wdone
+			<-cdone
+		} else {
+			_, _ = e.peer.Write([]byte{0x89, 0x00})
+			select {
+			case <-e.loop:
+			case <-time.After(3 * time.Second):
+				out = "loop-timeout:"
+			}
+		}
+		all := tr.end()
+		var keep []string
+		for _, ev := range strings.Split(all, ",") {
+			if !strings.Contains(ev, ":b") && ev != "-" {
+				keep = append(keep, ev)
+			}
+		}
+		if len(keep) == 0 {
+			out += "-"
+		} else {
+			out += strings.Join(keep, ",")
+		}
+	default:
+		return "bad-op"
+	}
+	return out
 }
